@@ -27,7 +27,8 @@ every observable is taken up to permutation (`List.Perm`; the driver prints item
 `get_mapping` returns the *first* entry of a hash map: the model returns the list of candidates
 (`mapCands`), the implementation's answer must be one of them.
 
-Not modelled (outside the property's domain): unreadable files, a `.zip` argument that is not a
+Not modelled (outside the property's domain): unreadable files, zip entries whose name is not
+"enclosed" (absolute, or climbing above the root: `explore` skips them), a `.zip` argument that is not a
 zip file, duplicate entry names inside one zip, `Archive::extract` on the plain-files archive
 (unreachable: `producer()` admits only info/json/xml/profraw/profdata as plain files, none of
 which is ever extracted from a plain archive), Windows path separators.
@@ -83,37 +84,14 @@ def isGcnoLlvm (h : List Nat) : Bool :=
 def isInfo (h : List Nat) : Bool :=
   3 ≤ h.length && (h.take 3 == [84, 78, 58] || h.take 3 == [83, 70, 58])
 
-/-- One step of the UTF-8 acceptor of `String::from_utf8` (`none` = rejected). State
-`(k, lo, hi)`: `k` continuation bytes still expected, the next one within `lo..=hi`. -/
-def utf8Step (st : Option (Nat × Nat × Nat)) (b : Nat) : Option (Nat × Nat × Nat) :=
-  match st with
-  | none => none
-  | some (0, _, _) =>
-    if b < 0x80 then some (0, 0x80, 0xBF)
-    else if 0xC2 ≤ b && b ≤ 0xDF then some (1, 0x80, 0xBF)
-    else if b == 0xE0 then some (2, 0xA0, 0xBF)
-    else if 0xE1 ≤ b && b ≤ 0xEC then some (2, 0x80, 0xBF)
-    else if b == 0xED then some (2, 0x80, 0x9F)
-    else if 0xEE ≤ b && b ≤ 0xEF then some (2, 0x80, 0xBF)
-    else if b == 0xF0 then some (3, 0x90, 0xBF)
-    else if 0xF1 ≤ b && b ≤ 0xF3 then some (3, 0x80, 0xBF)
-    else if b == 0xF4 then some (3, 0x80, 0x8F)
-    else none
-  | some (k + 1, lo, hi) => if lo ≤ b && b ≤ hi then some (k, 0x80, 0xBF) else none
-
-def utf8Valid (bs : List Nat) : Bool :=
-  match bs.foldl utf8Step (some (0, 0x80, 0xBF)) with
-  | some (0, _, _) => true
-  | _ => false
-
 /-- byte-substring search (`str::contains` on valid UTF-8) -/
 def containsSub (pat : List Nat) : List Nat → Bool
   | [] => pat.isEmpty
   | c :: cs => pat.isPrefixOf (c :: cs) || containsSub pat cs
 
-/-- `read_exact(256)` succeeds, the 256 bytes are valid UTF-8 and contain the marker `bMarker` -/
-def isJacoco (h : List Nat) : Bool :=
-  256 ≤ h.length && utf8Valid (h.take 256) && containsSub bMarker (h.take 256)
+/-- `reader.take(256).read_to_end(..)`: the marker `bMarker` occurs, as bytes, in the first
+`min(256, size)` bytes (no length or encoding requirement) -/
+def isJacoco (h : List Nat) : Bool := containsSub bMarker (h.take 256)
 
 /-! ## Files, archives, classification -/
 
